@@ -940,9 +940,17 @@ func (m *machine) restartOp() {
 		}
 		if err != nil {
 			j.state = jGone
-			// COMPLETE is published before the status file is written: tell the two apart
+			// COMPLETE is published before the status file is written. Tell "the file was
+			// not there yet" from a real loss: wait until the file is complete (the spool
+			// goroutine's last action), then open the directory once more.
 			sig := "restart:job-lost"
-			if b, e := os.ReadFile(filepath.Join(m.jobDir(j), "status")); e != nil || len(b) == 0 || !json.Valid(b) {
+			for k := 0; k < 4000; k++ {
+				if b, e := os.ReadFile(filepath.Join(m.jobDir(j), "status")); e == nil && len(b) > 0 && b[len(b)-1] == '\n' {
+					break
+				}
+				time.Sleep(50 * time.Microsecond)
+			}
+			if _, e := jobstorage.NewFSJobStorage(m.dir).Status(g.name, j.id); e == nil {
 				sig = "restart:job-lost:complete-before-status-file"
 			}
 			m.disc(sig, "completed job %s (%s) is unknown after a restart: %v", j.id, model.TravString(j.steps), err)
@@ -1075,6 +1083,15 @@ func TestReplay(t *testing.T) {
 			t.Fatal(err)
 		}
 		runNames(t, c)
+		return
+	case "TestConfirmCrash":
+		confirmCrash(t)
+		return
+	case "TestConfirmCompleteBeforeStatusFile":
+		confirmWindow(t)
+		return
+	case "TestConfirmManyJobsRestart":
+		confirmManyJobs(t)
 		return
 	case "TestLiveServer":
 		var c Case
